@@ -20,13 +20,19 @@ RULE = ("cases: (T,dt) pairs from a grid (exact double quotient sent to the mode
         "(exact, TEBD, 3 TDVPs, BUG, FixedBUG) on random 1-4 node systems with run/reset/run, also with default "
         "configurations, TTNO operators, the bond-dimension record, setter calls between runs; exact evolution of "
         "vectorised density matrices (open=True); typed / extreme (T,dt) pairs; run/reset/setter histories of the "
-        "counting driver. "
+        "counting driver; random histories of run / reset / set_num_time_steps / "
+        "set_num_time_steps_constant_final_time / run_one_time_step (also calls that raise) on a counting subclass of "
+        "TTNTimeEvolution, on ExactTimeEvolution and on TEBD, compared event by event with the object machine of "
+        "Ptn/C18/Machine.lean (IEEE double arithmetic on exact rationals). "
         "non-trivial = distinct case whose step count or schedule exercises rounding-up, k>1, 'inf', "
         "dict/list addressing or a concrete class")
 PARTIAL = ["object aliasing (deepcopy really separates the caller's state) is decided by the oracle only",
            "accuracy of expm in the exact evolution is by contract (validated against an eig-based propagator, for "
            "Hermitian generators and for H0 - i*Gamma)"]
-ASSUMPTIONS = ["math.modf and float division are exact on the double quotient; Python dict keys are distinct"]
+ASSUMPTIONS = ["math.modf and float division are exact on the double quotient; Python dict keys are distinct",
+               "arithmetic contract of derived_consistent_invariant (the step count recomputed from the new (final_time, "
+               "time_step_size) after a setter is the requested one) holds for IEEE doubles: validated on every live "
+               "setter call of the history family; proved for exact arithmetic (admissible_exact)"]
 
 # Families that are switched off because the UNCHANGED /repo fails them (possible genuine defects, reported to the
 # coordinator; delete an entry once /repo is repaired or the finding is recorded in known_findings.json).
@@ -132,6 +138,11 @@ def gen_cases(ctx):
                           "k": arng.choice([1, 2, 3, 4, "inf"]), "ktype": arng.choice(["int", "np.int64", "np.int32"]),
                           "spec": arng.choice(["single", "list", "dict", "empty-list", "empty-dict"]),
                           "dt": arng.choice(GRID_DT)})
+    # 2c. histories of the object machine (Ptn/C18/Machine.lean): random run / reset / setter / step sequences,
+    #     including calls that raise, on three real classes
+    hrng = ctx.subrng("drv")
+    for _ in range(ctx.n(110, 900)):
+        cases.append(gen_drv_case(hrng))
     # 3. concrete classes
     kinds = ["exact", "tebd", "tdvp1", "tdvp2", "tdvp2site", "bug", "fixedbug"]
     reps = ctx.n(16, 60)
@@ -172,6 +183,38 @@ def gen_cases(ctx):
     return cases
 
 
+def gen_drv_case(rng):
+    cls = rng.choice(["count", "count", "exact", "tebd"])
+    dt = rng.choice([rng.choice(GRID_DT), rng.uniform(0.01, 0.6)])
+    nst = rng.randint(1, 7)
+    T = rng.choice([nst * dt, (nst + rng.random()) * dt, (nst + 0.1) * dt])
+    events = []
+    for _ in range(rng.randint(1, 8)):
+        r = rng.random()
+        if r < 0.34:
+            events.append(["run", rng.choice([1, 1, 2, 3, 4, "inf", "inf", 0 if rng.random() < 0.3 else 2])])
+        elif r < 0.50:
+            events.append(["reset"])
+        elif r < 0.68:
+            events.append(["setn", rng.choice([0, 1, 2, 3, 4, 5, 6, 7, 3, -1 if rng.random() < 0.4 else 2])])
+        elif r < 0.90:
+            events.append(["setc", rng.choice([1, 2, 3, 4, 5, 6, 7, 3, 0 if rng.random() < 0.5 else 5,
+                                               -2 if rng.random() < 0.3 else 4])])
+        else:
+            events.append(["step"])
+    if not any(e[0] == "run" for e in events):
+        events.append(["run", rng.choice([1, 2, "inf"])])
+    return {"kind": "drv", "cls": cls, "dt": dt, "T": T, "rb": cls != "exact" and rng.random() < 0.7,
+            "nops": rng.choice([1, 2, 3]) if cls != "tebd" else rng.choice([1, 2]), "events": events}
+
+
+def _drv_model_line(case):
+    dt, T = Fraction(float(case["dt"])), Fraction(float(case["T"]))
+    evs = " ".join(e[0] if len(e) == 1 else f"{e[0]}:{e[1]}" for e in case["events"])
+    return (f"C18 hist {dt.numerator} {dt.denominator} {T.numerator} {T.denominator} {1 if case['rb'] else 0} "
+            f"{case['nops']} {evs}")
+
+
 def _numsteps_line(case):
     T, dt = _typed(case)
     q = Fraction(float(T / dt))
@@ -179,8 +222,14 @@ def _numsteps_line(case):
 
 
 def run(ctx):
-    cases = gen_cases(ctx)
+    import glob
+    import json
+    import os
+    from harness import common
     # corpus first
+    for path in sorted(glob.glob(os.path.join(common.CORPUS_DIR, "C18", "*.json"))):
+        run_case(ctx, common.unjson(json.load(open(path))).get("case", {}))
+    cases = gen_cases(ctx)
     lines, idx = [], []
     for i, c in enumerate(cases):
         if c["kind"] == "numsteps":
@@ -194,6 +243,9 @@ def run(ctx):
             if ln:
                 lines.append(ln)
                 idx.append(i)
+        elif c["kind"] == "drv":
+            lines.append(_drv_model_line(c))
+            idx.append(i)
     outs = ctx.lean.batch(lines)
     model = {i: o for i, o in zip(idx, outs)}
     for i, c in enumerate(cases):
@@ -214,6 +266,8 @@ def run_case(ctx, case, model_out=None):
         _case_hist(ctx, case, model_out)
     elif kind == "open":
         _case_open(ctx, case)
+    elif kind == "drv":
+        _case_drv(ctx, case, model_out)
     else:
         _case_class(ctx, case)
 
@@ -454,6 +508,299 @@ def _case_hist(ctx, case, model_out=None):
 def json_key(case):
     import json
     return json.dumps(case, sort_keys=True, default=str)
+
+
+# ------------------------------------------------------------------ histories of the object machine
+
+def _frac(x):
+    f = Fraction(float(x))
+    return f"{f.numerator}/{f.denominator}"
+
+
+class _TaggedArray(np.ndarray):
+    """A propagator that remembers the step size it was computed for."""
+    tag = None
+
+
+class _TaggedList(list):
+    tag = None
+
+
+def _drv_mixin():
+    """Instrumentation shared by the three driven classes: a log of the propagator tags used by the steps since
+    construction / the last reset, the step count at every evaluation of the current table."""
+    class Instrumented:
+        def _verif_init(self):
+            self.vlog = []          # tag of the propagator used by every step since the last reset
+            self.vevals = None      # (column, steps done) per save_operator_results since the last init_results
+
+        def init_results(self, evaluation_time=1):
+            super().init_results(evaluation_time)
+            self.vevals = []
+
+        def save_operator_results(self, results, index):
+            self.vevals.append((int(index), len(self.vlog)))
+            super().save_operator_results(results, index)
+
+        def run_one_time_step(self, **kw):
+            self.vlog.append(self._verif_tag())
+            super().run_one_time_step(**kw)
+    return Instrumented
+
+
+def _drv_build(case):
+    """The real object of a `drv` case and a function returning the step size its stored propagator is for."""
+    from pytreenet.time_evolution.ttn_time_evolution import TTNTimeEvolution, TTNTimeEvolutionConfig
+    from pytreenet.time_evolution.exact_time_evolution import ExactTimeEvolution
+    Mixin = _drv_mixin()
+    dt, T, nops, rb = case["dt"], case["T"], case["nops"], case["rb"]
+    if case["cls"] == "count":
+        class CountingTTN(Mixin, TTNTimeEvolution):
+            """No stored propagator: a step reads the step size when it is performed (as the TDVP classes do)."""
+            def _verif_tag(self):
+                return self.time_step_size
+
+            def run_one_time_step(self, **kw):
+                self.vlog.append(self._verif_tag())
+                self.state = self.state + 1
+
+            def evaluate_operator(self, operator):
+                return 1000 * operator + self.state
+
+            def obtain_bond_dims(self):
+                return {("a", "b"): self.state, ("b", "c"): self.state}
+        algo = CountingTTN(0, dt, T, list(range(nops)), config=TTNTimeEvolutionConfig(record_bond_dim=rb))
+        algo._verif_init()
+        return algo, {}
+    if case["cls"] == "exact":
+        class TaggedExact(Mixin, ExactTimeEvolution):
+            def _compute_time_evolution_operator(self):
+                out = super()._compute_time_evolution_operator().view(_TaggedArray)
+                out.tag = self._time_step_size
+                return out
+
+            def _verif_tag(self):
+                return self._time_evolution_operator.tag
+        H = np.array([[0.7, 0.4 - 0.3j], [0.4 + 0.3j, -0.2]])
+        psi = np.array([0.6, 0.8j])
+        opm = [np.array([[1.0, 0], [0, -1.0]]), np.array([[0, 1.0], [1.0, 0]]), np.array([[0, -1j], [1j, 0]])][:nops]
+        algo = TaggedExact(psi, H, dt, T, opm)
+        algo._verif_init()
+        return algo, {"H": H, "psi": psi, "ops": opm}
+    import pytreenet as ptn
+    from pytreenet.ttns.ttns import TreeTensorNetworkState
+    from pytreenet.operators.tensorproduct import TensorProduct
+    from pytreenet.time_evolution.trotter import TrotterSplitting
+    from pytreenet.time_evolution.tebd import TEBD
+
+    class TaggedTEBD(Mixin, TEBD):
+        def _verif_tag(self):
+            return self.exponents.tag
+    psi = TreeTensorNetworkState()
+    psi.add_root(ptn.Node(identifier="a"), np.array([[1, 2], [0.5, 1j]], dtype=complex))
+    psi.add_child_to_parent(ptn.Node(identifier="b"), np.array([[1, 0], [1j, 1]], dtype=complex), 0, "a", 0)
+    X, Z = np.array([[0, 1], [1, 0]], dtype=complex), np.diag([1.0, -1.0]).astype(complex)
+    ts = TrotterSplitting.from_lists([TensorProduct({"a": X, "b": Z})])
+    plain = ts.exponentiate_splitting
+
+    def tagged(delta_time, *a, **k):
+        out = _TaggedList(plain(delta_time, *a, **k))
+        out.tag = delta_time
+        return out
+    ts.exponentiate_splitting = tagged
+    opl = [TensorProduct({"a": Z}), TensorProduct({"b": X})][:nops]
+    algo = TaggedTEBD(psi, ts, dt, T, opl, svd_parameters=_no_trunc(),
+                      config=TTNTimeEvolutionConfig(record_bond_dim=rb))
+    algo._verif_init()
+    return algo, {}
+
+
+def _drv_summary(case, algo, exc):
+    """The summary line of the object, in the format of `Ptn.C18.summary`."""
+    log = algo.vlog
+    rle = []
+    for t in log:
+        if rle and rle[-1][0] == t:
+            rle[-1][1] += 1
+        else:
+            rle.append([t, 1])
+    steps = ",".join(f"{_frac(t)}*{c}" for t, c in rle)
+    if algo._results is None:
+        res = "none"
+    else:
+        tab = algo._results
+        last = {}
+        for col, cnt in algo.vevals:
+            last[col] = cnt
+        res = f"{tab.shape[0]}x{tab.shape[1]}:" + ",".join(
+            f"{_frac(tab[-1, j].real)}@{last[j]}" if j in last else "z" for j in range(tab.shape[1]))
+    bd = getattr(algo, "bond_dims", None)
+    if bd is None:
+        bond = "none"
+    else:
+        lists = [list(v) for v in bd.values()]
+        if case["cls"] == "count":
+            bond = "[" + ",".join(str(int(x)) for x in (lists[0] if lists else [])) + "]"
+            if any(l != lists[0] for l in lists):
+                bond += "!keys-differ"
+        else:
+            bond = f"len{len(lists[0]) if lists else 0}" + ("!keys-differ" if len({len(l) for l in lists}) > 1 else "")
+    tag = algo._verif_tag()
+    return (f"{exc or 'ok'}|{algo.num_time_steps}|{_frac(algo.time_step_size)}|{_frac(algo.final_time)}|{_frac(tag)}|"
+            f"{steps}|{res}|{bond}")
+
+
+def _drv_canon_model(case, seg):
+    """The model's summary with the bond-dimension entries reduced to their number for TEBD (the model's entries are
+    step counts, TEBD's are bond dimensions)."""
+    parts = seg.split("|")
+    if case["cls"] == "tebd" and len(parts) == 8 and parts[7].startswith("["):
+        inner = parts[7][1:-1]
+        parts[7] = f"len{len(inner.split(',')) if inner else 0}"
+    return "|".join(parts)
+
+
+def _case_drv(ctx, case, model_out=None):
+    if model_out is None:
+        model_out = ctx.lean.batch([_drv_model_line(case)])[0]
+    cls, nops = case["cls"], case["nops"]
+    ctx.count(("drv", json_key(case)), nontrivial=len(case["events"]) > 1, corr=True)
+    ctx.tally("drv_class", cls)
+    ctx.tally("drv_events", len(case["events"]))
+    ctx.sample(case, 3)
+    try:
+        algo, aux = _drv_build(case)
+    except Exception as e:          # noqa: BLE001
+        ctx.oracle_fail(case, f"history driver ({cls}): construction raised {type(e).__name__}: {str(e)[:160]}")
+        return
+    impl = [_drv_summary(case, algo, None)]
+    probs = []
+    # the independent mirror of the user parameters (the oracle's own book keeping)
+    dt, T = case["dt"], case["T"]
+    n = oracle_num_steps(T, dt)
+    if algo.num_time_steps != n:
+        probs.append(f"construction: {algo.num_time_steps} steps, rule gives {n}")
+    init_copy = copy.deepcopy(algo.initial_state)
+    for ev in case["events"]:
+        name = ev[0]
+        ctx.tally("drv_event", name)
+        exc = None
+        before = len(algo.vlog)
+        old_bond = copy.deepcopy(getattr(algo, "bond_dims", None))
+        try:
+            if name == "run":
+                algo.run(evaluation_time=ev[1], pgbar=False)
+            elif name == "reset":
+                algo.reset_to_initial_state()
+                algo.vlog = []          # the log counts the steps applied to the CURRENT state
+            elif name == "setn":
+                algo.set_num_time_steps(ev[1])
+            elif name == "setc":
+                algo.set_num_time_steps_constant_final_time(ev[1])
+            else:
+                algo.run_one_time_step()
+        except (ValueError, ZeroDivisionError) as e:
+            exc = type(e).__name__
+        except Exception as e:          # noqa: BLE001
+            probs.append(f"{ev}: raised {type(e).__name__}: {str(e)[:120]}")
+            break
+        impl.append(_drv_summary(case, algo, exc))
+        tag = f"after {ev}: "
+        if exc is not None:
+            ctx.tally("drv_raised", f"{name}:{exc}")
+            # a call that raised is not judged; the mirror is re-read from the object
+            n, dt, T = algo.num_time_steps, algo.time_step_size, algo.final_time
+            continue
+        if name == "setn":
+            n, T = ev[1], ev[1] * dt
+        elif name == "setc":
+            n, dt = ev[1], T / ev[1]
+        if (algo.num_time_steps, algo.time_step_size, algo.final_time) != (n, dt, T):
+            probs.append(tag + f"object reports n={algo.num_time_steps}, dt={algo.time_step_size}, "
+                               f"T={algo.final_time}; expected {n}, {dt}, {T}")
+            break
+        if name in ("setn", "setc") and dt > 0 and T > 0:
+            # the arithmetic contract of `derived_consistent_invariant` (Admissible) on this live call
+            if oracle_num_steps(T, dt) != n:
+                probs.append(tag + f"a fresh construction with T={T!r}, dt={dt!r} computes "
+                                   f"{oracle_num_steps(T, dt)} steps, the object holds {n}")
+            else:
+                ctx.hyp_validated += 1
+        if algo._verif_tag() != dt:
+            probs.append(tag + f"stored propagator was computed for dt={algo._verif_tag()!r}, current dt={dt!r}")
+        if cls == "exact" and dt < 3.0:
+            # the tag is not trusted blindly: U = exp(-i dt H) is checked against an eig-based propagator
+            w, V = np.linalg.eigh(aux["H"])
+            ref = (V * np.exp(-1j * w * dt)) @ V.conj().T
+            if np.linalg.norm(np.asarray(algo._time_evolution_operator) - ref) > 1e-12:
+                probs.append(tag + f"stored propagator is not exp(-i*{dt}*H)")
+        if name == "reset":
+            st = algo.state
+            same = (st == init_copy) if cls == "count" else (
+                np.array_equal(st, init_copy) if cls == "exact" else
+                all(np.array_equal(st.tensors[k], init_copy.tensors[k]) for k in init_copy.nodes))
+            if not same:
+                probs.append(tag + "state is not the initial state")
+        if name == "step" and (len(algo.vlog) != before + 1 or algo.vlog[-1] != dt):
+            probs.append(tag + f"step used a propagator for {algo.vlog[-1:]} (current dt={dt!r})")
+        if name == "run":
+            k = ev[1]
+            cols = [n] if k == "inf" else list(range(0, n + 1, k))
+            res = algo.results
+            if res.shape != (nops + 1, len(cols)):
+                probs.append(tag + f"table shape {res.shape}, expected {(nops + 1, len(cols))}")
+                break
+            new = algo.vlog[before:]
+            if len(new) != n or any(t != dt for t in new):
+                probs.append(tag + f"{len(new)} steps with propagators for {sorted(set(new))}; expected {n} steps "
+                                   f"with dt={dt!r}")
+            if [c for c, _ in algo.vevals] != list(range(len(cols))) or \
+                    [c for _, c in algo.vevals] != [before + s for s in cols]:
+                probs.append(tag + f"evaluations (column, steps done) {algo.vevals}; expected columns "
+                                   f"0..{len(cols) - 1} after {[before + s for s in cols]} steps")
+            for j, st in enumerate(cols):
+                if res[-1, j] != st * dt:
+                    probs.append(tag + f"time of column {j}: {res[-1, j]!r}, expected {st}*{dt!r}")
+            tm = algo.times()
+            if tm.shape != (len(cols),) or not np.array_equal(tm, np.array([st * dt for st in cols])):
+                probs.append(tag + "times() is not j*k*dt for the current dt")
+            bd = getattr(algo, "bond_dims", None)
+            if case["rb"]:
+                if bd is None or any(len(v) != len(cols) for v in bd.values()) or (len(cols) and not bd):
+                    probs.append(tag + f"bond-dimension record has entries of lengths "
+                                       f"{None if bd is None else [len(v) for v in bd.values()]}, the table has "
+                                       f"{len(cols)} columns (old record: {old_bond})")
+            elif bd is not None:
+                probs.append(tag + "bond dimensions recorded although record_bond_dim is off")
+            if cls == "count":
+                for r in range(nops):
+                    if not np.array_equal(res[r], np.array([1000 * r + before + s for s in cols])):
+                        probs.append(tag + f"row {r}: {res[r]} is not the value after {cols} further steps")
+            if cls == "exact":
+                # every step multiplies by exp(-i tag H): the state after the logged steps is exp(-i H sum(tags)) psi
+                w, V = np.linalg.eigh(aux["H"])
+                c0 = V.conj().T @ aux["psi"]
+                for j, st in enumerate(cols):
+                    tau = sum(algo.vlog[:before + st])
+                    v = V @ (np.exp(-1j * w * tau) * c0)
+                    for r in range(nops):
+                        want = v.conj() @ aux["ops"][r] @ v
+                        if abs(res[r, j] - want) > 1e-9:
+                            probs.append(tag + f"row {r} col {j}: recorded {res[r, j]:.10g}, <O> at evolved time "
+                                               f"{tau!r} is {want:.10g}")
+        if probs:
+            break
+    model = [_drv_canon_model(case, seg) for seg in model_out.split(";")]
+    for i, (a, b) in enumerate(zip(impl, model)):
+        if a != b:
+            what = "construction" if i == 0 else f"event {i} {case['events'][i - 1]}"
+            ctx.corr_fail(case, f"history ({cls}) {what}: impl={a} model={b}")
+            break
+    else:
+        if len(impl) != len(model) and not probs:
+            ctx.corr_fail(case, f"history ({cls}): {len(impl)} summaries from the code, {len(model)} from the model")
+    if probs:
+        ctx.oracle_fail(case, f"driver history ({cls}, events {case['events']}): " + "; ".join(probs[:4]))
 
 
 # ------------------------------------------------------------------ exact evolution of a vectorised density matrix
@@ -815,3 +1162,12 @@ def shrink(case):
     elif case["kind"] == "sched":
         if case["n"] > 0:
             yield dict(case, n=case["n"] - 1)
+    elif case["kind"] == "drv":
+        evs = case["events"]
+        for i in range(len(evs)):
+            if len(evs) > 1:
+                yield dict(case, events=evs[:i] + evs[i + 1:])
+        if case["nops"] > 1:
+            yield dict(case, nops=1)
+        if case["rb"]:
+            yield dict(case, rb=False)
